@@ -273,7 +273,8 @@ gen_filter (gen_t *g, int slot, int allow_convolution)
     static const int plain[] = { PIXMAN_FILTER_NEAREST, PIXMAN_FILTER_BILINEAR, PIXMAN_FILTER_FAST, PIXMAN_FILTER_GOOD, PIXMAN_FILTER_BEST,
 				 PIXMAN_FILTER_NEAREST, PIXMAN_FILTER_BILINEAR, PIXMAN_FILTER_BILINEAR };
     a[n++] = slot;
-    if (allow_convolution && rng_chance (R, 1, 4)) f = rng_chance (R, 1, 2) ? PIXMAN_FILTER_CONVOLUTION : PIXMAN_FILTER_SEPARABLE_CONVOLUTION;
+    if (allow_convolution == 2) f = PIXMAN_FILTER_SEPARABLE_CONVOLUTION;       /* asked for by name */
+    else if (allow_convolution && rng_chance (R, 1, 4)) f = rng_chance (R, 1, 2) ? PIXMAN_FILTER_CONVOLUTION : PIXMAN_FILTER_SEPARABLE_CONVOLUTION;
     else f = plain[rng_n (R, 8)];
     cw = (int)rng_range (R, 1, 4); ch = (int)rng_range (R, 1, 4); xb = (int)rng_n (R, 3); yb = (int)rng_n (R, 3);
     a[n++] = f; a[n++] = cw; a[n++] = ch; a[n++] = xb; a[n++] = yb;
